@@ -11,6 +11,7 @@ Oracle handlers for C13.
   operations / replication factors, token ranges, Get on the returned sub-ring).
   An answer may carry `#`-separated components; the model reproduces a prefix of them.
 * `C13.phist rfcache streams steps | long fresh` — the same for `PartitionRingWatcher`.
+* `C13.conc  round za n phases | mismatches` — concurrent readers (judge only, see `handleConc`).
 
 diff  = the model of the long-lived client reproduces the long-lived client's answers;
 judge = every answer of the long-lived client equals the fresh client's answer.
@@ -192,8 +193,17 @@ def handlePHist (f : List String) : String × String × String :=
     | none => ("parse-error", "-", "-")
   | _ => ("bad-arity", "-", "-")
 
+/-- `C13.conc round za n phases | mismatches`: concurrent readers during bursts of topology changes;
+judged only (after quiescence the long-lived ring must answer like a fresh one), nothing to model. -/
+def handleConc (f : List String) : String × String × String :=
+  match f with
+  | [_round, za, n, phases, mism] =>
+    ("-", if mism == "-" then "-" else "stale_after_concurrent_readers", s!"k=conc za={za} n={n} phases={phases} triv=0")
+  | _ => ("bad-arity", "-", "-")
+
 def handle (cmd : String) (f : List String) : String × String × String :=
   if cmd == "C13.hist" then handleHist f
+  else if cmd == "C13.conc" then handleConc f
   else if cmd == "C13.phist" then handlePHist f
   else ("unknown-cmd", "-", "-")
 
